@@ -19,7 +19,10 @@ canonical lines as harness/corr/fun_corr.cpp prints for the real code.
      ih2r3 ih2r4 ir2h3 ir2h4 <T> <mode> ints           integer wrappers (T: uc s us i ui; mode f|d)
      p2r3f p2r4f rt3f rt4f rt3d rt4d <packed hex>      packed colours
      r2p3f r2p4f <float hex..>                         rgb2packed at float
-     p2r4i <T> <packed hex> ; r2p4i <T> ints           packed, integer element types
+     p2r4i <T> <packed hex> ; r2p4i <T> ints           packed, integer element types (p2r3i / r2p3i: Vec3)
+     f64m / f32m <op> <hex>    floor ceil trunc with machine-int intermediates: wrapped value + no-overflow flag
+     fh2r3 fh2r4 fr2h3 fr2h4 <f|d> <hex ..>            the floating-element arms of the templated wrappers
+     ul <a> <b> <t float hex>  ulerp / lerp at unsigned int, Q = float
 -/
 open ImathVerif
 
@@ -199,6 +202,27 @@ def handle (ws : List String) : String :=
   match ws with
   | ["f32", op, x] => f32opStr (opCode op) (UInt32.ofNat (parseHex x))
   | ["f64", op, x] => f64op (opCode op) (UInt64.ofNat (parseHex x))
+  | ["f64m", op, x] =>
+    -- machine-int model: the wrapped 32-bit result and "no int intermediate overflows"
+    let u := UInt64.ofNat (parseHex x)
+    if !inRange64 u then "x" else
+    let d := Float.ofBits u
+    match opCode op with
+    | 0 => s!"{Fun.floor32 toIntF64 d} {b01 (Fun.noOverflow (Fun.floorSteps toIntF64 d))}"
+    | 1 => s!"{Fun.ceil32 toIntF64 d} {b01 (Fun.noOverflow (Fun.ceilSteps toIntF64 d))}"
+    | _ => s!"{Fun.trunc32 toIntF64 d} {b01 (Fun.noOverflow (Fun.truncSteps toIntF64 d))}"
+  | ["f32m", op, x] =>
+    let u := UInt32.ofNat (parseHex x)
+    if !inRange32 u then "x" else
+    let d := Float32.ofBits u
+    match opCode op with
+    | 0 => s!"{Fun.floor32 toIntF32 d} {b01 (Fun.noOverflow (Fun.floorSteps toIntF32 d))}"
+    | 1 => s!"{Fun.ceil32 toIntF32 d} {b01 (Fun.noOverflow (Fun.ceilSteps toIntF32 d))}"
+    | _ => s!"{Fun.trunc32 toIntF32 d} {b01 (Fun.noOverflow (Fun.truncSteps toIntF32 d))}"
+  | ["ul", a, b, t] =>
+    let cast (n : Nat) : Float32 := (UInt32.ofNat n).toFloat32
+    let a := a.toNat!; let b := b.toNat!; let t := ff t
+    s!"{(Fun.ulerpU cast a b t).toUInt32.toNat} {(Fun.lerp (cast a) (cast b) t).toUInt32.toNat}"
   | ["int", x, y] =>
     let x := parseInt x; let y := parseInt y
     s!"{optStr (Fun.divs32 x y)} {optStr (Fun.mods32 x y)} {optStr (Fun.divp32 x y)} {optStr (Fun.modp32 x y)}"
@@ -226,6 +250,32 @@ def handle (ws : List String) : String :=
   | ["h2r4", r, g, b, a] => c4s (hsv2rgbC4 floorInt64 ⟨fd r, fd g, fd b, fd a⟩)
   | ["r2h3", x, y, z] => v3s (rgb2hsvV3 ⟨fd x, fd y, fd z⟩)
   | ["r2h4", r, g, b, a] => c4s (rgb2hsvC4 ⟨fd r, fd g, fd b, fd a⟩)
+  | ["fh2r3", "d", x, y, z] => v3s (hsv2rgbV3F floorInt64 ⟨fd x, fd y, fd z⟩)
+  | ["fr2h3", "d", x, y, z] => v3s (rgb2hsvV3F ⟨fd x, fd y, fd z⟩)
+  | ["fh2r4", "d", r, g, b, a] => c4s (hsv2rgbC4F floorInt64 ⟨fd r, fd g, fd b, fd a⟩)
+  | ["fr2h4", "d", r, g, b, a] => c4s (rgb2hsvC4F ⟨fd r, fd g, fd b, fd a⟩)
+  | ["fh2r3", "f", x, y, z] =>
+    let v := hsv2rgbV3F floorInt64 ⟨(ff x).toFloat, (ff y).toFloat, (ff z).toFloat⟩
+    v3f32s ⟨v.x.toFloat32, v.y.toFloat32, v.z.toFloat32⟩
+  | ["fr2h3", "f", x, y, z] =>
+    let v := rgb2hsvV3F ⟨(ff x).toFloat, (ff y).toFloat, (ff z).toFloat⟩
+    v3f32s ⟨v.x.toFloat32, v.y.toFloat32, v.z.toFloat32⟩
+  | ["fh2r4", "f", r, g, b, a] =>
+    let v := hsv2rgbC4F floorInt64 ⟨(ff r).toFloat, (ff g).toFloat, (ff b).toFloat, (ff a).toFloat⟩
+    c4f32s ⟨v.r.toFloat32, v.g.toFloat32, v.b.toFloat32, v.a.toFloat32⟩
+  | ["fr2h4", "f", r, g, b, a] =>
+    let v := rgb2hsvC4F ⟨(ff r).toFloat, (ff g).toFloat, (ff b).toFloat, (ff a).toFloat⟩
+    c4f32s ⟨v.r.toFloat32, v.g.toFloat32, v.b.toFloat32, v.a.toFloat32⟩
+  | ["p2r3d", p] => v3s (packed2rgbV3 (α := Float) (parseHex p))
+  | ["p2r4d", p] => c4s (packed2rgbC4 (α := Float) (parseHex p))
+  | ["p2r3i", t, p] =>
+    let ti := tinfo t
+    let v := packed2rgbV3I ti.max (fun n => wrapT ti n) (parseHex p)
+    s!"{v.x} {v.y} {v.z}"
+  | ["r2p3i", t, x, y, z] =>
+    let ti := tinfo t
+    let si (n : Int) : Float32 := (Int64.ofInt n).toFloat32 / (UInt64.ofNat ti.max).toFloat32
+    hex (rgb2packedV3I si toU32F32 ⟨parseInt x, parseInt y, parseInt z⟩)
   | ["ih2r3", t, mode, x, y, z] =>
     let ti := tinfo t
     let v := hsv2rgbV3I floorInt64 (scaleIn ti mode) (scaleOut ti) ⟨parseInt x, parseInt y, parseInt z⟩
